@@ -246,7 +246,10 @@ def cases(tier: str, seed: int) -> List[Case]:
         for a in s2c:
             idx += 1
             lab = f"sh:{_slabel(e)}<-{_slabel(a)}"
-            if not _pick(lab, seed, 24 if quick else 2):
+            # every pair of signatures with at most one parameter each is in every tier (all kind x kind x default
+            # x same/different name interactions); larger pairs are sampled
+            small = len(e) <= 1 and len(a) <= 1
+            if not small and not _pick(lab, seed, 24 if quick else 2):
                 continue
             out.append(Case("h07_shape", lab, {"exp": e, "act": a}, timeout=60 if quick else 180, twin=False))
     # actual signatures that absorb with both *args and **kwargs next to one named parameter
